@@ -6,11 +6,12 @@ package main
 
 import (
 	"bytes"
-	"errors"
 	"fmt"
+	"io/fs"
 	"log/slog"
 	"sort"
 	"strings"
+	"syscall"
 	"time"
 
 	"github.com/whoisnian/glb/logger"
@@ -20,12 +21,15 @@ import (
 )
 
 type sink struct {
-	busy   bool
-	chunks []string
-	sched  bool
+	refusals int
+	busy     bool
+	chunks   []string
+	sched    bool
 }
 
-var errSink = errors.New("destination refuses this record")
+// the refusal looks like what a non-blocking pipe or an interrupted system call gives: an error a
+// caller might be tempted to retry (one Write per record holds whatever the Write returns)
+var errSink error = &fs.PathError{Op: "write", Path: "destination", Err: syscall.EAGAIN}
 
 func (s *sink) Write(p []byte) (int, error) {
 	if bytes.Contains(p, []byte("REFUSED")) {
@@ -33,7 +37,8 @@ func (s *sink) Write(p []byte) (int, error) {
 		if s.sched {
 			vsched.Event("write-refused")
 		}
-		return 0, errSink
+		s.refusals++
+		return len(p) / 2, errSink
 	}
 	if s.sched {
 		vsched.Event("write-begin")
@@ -185,6 +190,17 @@ func body(sc scen) func(c *vsched.Ctx) {
 				if !t.Done() {
 					return fmt.Sprintf("C02: thread %s did not finish (%s)", t.Name, t.PendingOp())
 				}
+			}
+			nRefused := 0
+			for _, ops := range plan {
+				for _, k := range ops {
+					if k == 6 {
+						nRefused++
+					}
+				}
+			}
+			if w.refusals != nRefused {
+				return fmt.Sprintf("C02: %d Write calls for the %d record(s) the destination refuses (%s, threads %v)", w.refusals, nRefused, handlerNames[sc.handler], desc)
 			}
 			var want []string
 			perThread := make([][]string, len(plan))
